@@ -104,7 +104,7 @@ CHECKS = {
         tech="explicit-state search over operation histories on the real objects with deep-snapshot invariants and a differential solo oracle"),
     "C04": dict(
         cat="model_checking", ref="4/C04",
-        text="Two complementary exhaustive explorations of the same harness bodies. (a) A hand-written cooperative scheduler runs 2-3 goroutines that parse and render on one engine, one set of parsed templates and one shared bindings map (slices, maps, Drops), switching only at scheduling points the harness owns and plants densely (an identity filter on every object, a no-op tag after every tag and object, a block, Drop.ToLiquid, every Write of the FRender writer, operation starts); every schedule with <=2 (quick) / <=3 (thorough) preemptions is executed to completion on a fresh world (deviation-bounded DFS, replay divergence is a hard error), and every operation must return its solo result with the shared bindings unchanged. (b) Because a cooperative scheduler's hand-offs are happens-before edges that blind the race detector, the same kind of bodies run free in a separate -race build: one program per standard tag, filter and operator form, rendered by 2/8/32 goroutines at GOMAXPROCS 1/4/16 on one parsed template and concurrently with a parse of its own source, every phase starting on a cold engine and including outputs beyond 64 KiB; any race report or result differing from sequential is a violation.",
+        text="Two complementary exhaustive explorations of the same harness bodies. (a) A hand-written cooperative scheduler runs 2-3 goroutines that parse and render on one engine, one set of parsed templates and one shared bindings map (slices, maps, Drops), switching only at scheduling points the harness owns and plants densely (an identity filter on every object, a no-op tag after every tag and object, a block, Drop.ToLiquid, every Write of the FRender writer, operation starts) and - through a build-time overlay that rewrites the repository's \"sync\" imports to a cooperative shim - at every Mutex/RWMutex/Once/Pool/Map/WaitGroup operation of the library itself, with blocking visible to the scheduler (no enabled goroutine = deadlock); scenarios: same template twice, parse against render, two templates, two concurrent parses, three goroutines; every schedule with <=2 (quick) / <=3 (thorough) preemptions is executed to completion on a fresh world (deviation-bounded DFS, replay divergence is a hard error), and every operation must return its solo result with the shared bindings unchanged. (b) Because a cooperative scheduler's hand-offs are happens-before edges that blind the race detector, the same kind of bodies run free in a separate -race build: one program per standard tag, filter and operator form, rendered by 2/8/32 goroutines at GOMAXPROCS 1/4/16 on one parsed template and concurrently with a parse of its own source, every phase starting on a cold engine and including outputs beyond 64 KiB; any race report or result differing from sequential is a violation.",
         note="Granularity of (a) is 'between any two template nodes and around every expression evaluation'; finer interleavings are delegated to (b), which is complete per program only because renders contain no synchronisation (two conflicting accesses are unordered in every schedule). The statement's static check is another technique family and is not built.",
         tech="stateless model checking: preemption-bounded DFS over schedules of the real code under a controlled scheduler, plus a free-running race-detector pass over an enumerated program alphabet"),
 }
@@ -119,7 +119,7 @@ def main():
         "setup_cmd": "./check --setup",
         "hooks": {
             "guard": "verif",
-            "enable": "no source hooks: checks compile /repo's working tree unmodified through the go.mod replace directive; extra files are added by go build -overlay only",
+            "enable": "no source hooks: checks compile /repo's working tree through the go.mod replace directive; go build -overlay adds accessor files (tools/overlay.sh), and for the C04 scheduler build compiles each repository file importing \\"sync\\" from a copy derived at build time whose only change is that import line (tools/overlay.sh sched)",
             "baseline_off_cmd": "cd /repo && GOFLAGS=-mod=mod GOPROXY=off GOSUMDB=off GOTOOLCHAIN=local go test -vet=off -count=1 ./...",
             "source_commits": hooks_commits,
             "add_only": True,
